@@ -124,6 +124,40 @@ def single_edits(t):
     return out
 
 
+CONST_MENU = [1.0000000000000002, 0.9999999999999999, 2.0000000001, 1e9 + 0.5, 123456789.1, 1e-7, 1e22, 1.5e300, -0.0,
+              0.1 + 0.2, 0.3, 1 / 3, 1e16, 2.0 ** 53 + 2.0, 1e-300, -1e-5, 12345678901234567890, 0.1, 100.0, 1e21,
+              1e15 + 0.3, 3.0000000000000004, -2.5e-8, 7, 7.000000000000001]
+
+
+def const_terms():
+    out = []
+    for c in CONST_MENU:
+        out += [C(c), Add(x, C(c)), NPow(C(c), 2), Mul(C(c), y), Exp(x, abs(c)) if c != 0 and c == c else C(c),
+                Log(x, abs(c)) if c not in (0, 1, -1) and abs(c) != 1 else C(c)]
+    return out
+
+
+def used_twins(t):
+    """Objects with the same model key as a fresh build of t but a different history: evaluated at two
+    different points, after a failing evaluation, after derivative queries and simplification."""
+    vs = sorted(M.variables(t))
+    pa = {v: 2 for v in vs}
+    pb = {v: 0.5 for v in vs}
+    out = []
+    for label, use in (
+        ("evaluated at 2", lambda e: A.outcome(lambda: e.at(Point(**pa)))),
+        ("evaluated at 0.5", lambda e: A.outcome(lambda: e.at(Point(**pb)))),
+        ("after a failing evaluation", lambda e: A.outcome(lambda: e.at(Point()))),
+        ("after derivative queries", lambda e: [A.outcome(lambda: LocatedDifferential(e, Point(**pa))),
+                                               A.outcome(lambda: Partial(e, vs[0] if vs else "x").as_expression()),
+                                               A.outcome(lambda: Differential(e, compute_early=True))]),
+    ):
+        e = A.build(t)
+        use(e)
+        out.append((e, label))
+    return out
+
+
 FOREIGN = [None, 3, 2.0, "x", "Variable(\"x\")", object(), (1, 2), [1], {"x": 1}, float("nan"), True, 0, b"x",
            frozenset(), complex(1, 1), type, len]
 
@@ -170,8 +204,18 @@ def object_set(tier):
             uniq.append(t)
     if tier != "thorough":
         uniq = uniq[:1500] if len(uniq) > 1500 else uniq
+    for t in const_terms():
+        k = A._spelling_key(t)
+        if k not in seen:
+            seen.add(k)
+            uniq.append(t)
     for t in uniq:
         objs.append((("E", M.key(t)), A.build(t), M.show(t)))
+    twin_src = [t for t in uniq if M.variables(t) and M.size(t) >= 2]
+    for t in twin_src[:: max(1, len(twin_src) // (400 if tier == "thorough" else 120))]:
+        for e, label in used_twins(t):
+            objs.append((("E", M.key(t)), e, f"{M.show(t)} [{label}]"))
+            objs.append((("Partial", M.key(t), "x"), Partial(e, "x"), f"Partial({M.show(t)} [{label}], x)"))
     pts = point_objects()
     if tier != "thorough":
         pts = pts[::2]
@@ -340,6 +384,8 @@ def run_c13(tier, seed):
     src = M.terms_up_to(M.SIGMA_FULL, 3) + M.terms_up_to(M.SIGMA_MED, 4) + (M.terms_up_to(M.SIGMA_RED, 5) if tier == "thorough" else [])
     src += [t for s in SEEDS for t in [s] + single_edits(s)]
     src += [sp for t in M.terms_up_to(M.SIGMA_FULL, 2) for sp in spellings(t)]
+    src += const_terms()
+    src += [Add(NPow(x, 2), Mul(C(c), y)) for c in CONST_MENU] + [Pow(C(abs(c)), x) for c in CONST_MENU if c]
     for t in src:
         k = A._spelling_key(t)
         if k not in seen:
@@ -380,6 +426,7 @@ def run_c13(tier, seed):
         except Exception as ex:  # noqa: BLE001
             st.violation({"why": f"eval({r}) raised {type(ex).__name__}"})
     sub = [Add(x, y), Mul(x, y), NPow(x, 2), Root(x, 3), Log(x, 2), Exp(x), x, C(2), Div(x, C(2.5)), Root(Add(x, y), 2)]
+    sub += [Add(x, C(c)) for c in CONST_MENU]
     for t in sub:
         e = A.build(t)
         re_ = repr(e)
